@@ -290,7 +290,7 @@ func c14(run *ev.Run) int {
 		var keys []string
 		parallel(16, end-off, func(i int) {
 			c := plain[off+i]
-			if !run.Want(c.key()) {
+			if !run.Want(c.key()) || run.Saturated() {
 				return
 			}
 			c14Run(run, srv, c)
@@ -301,12 +301,15 @@ func c14(run *ev.Run) int {
 		sigMu.Lock()
 		trace = trace[:0]
 		sigMu.Unlock()
+		if run.Saturated() {
+			break
+		}
 		c14Census(run, fmt.Sprintf("c14/census/batch=%d", off/batch), keys)
 		fmt.Fprintf(os.Stderr, "progress: plain batch %d/%d done at %s\n", off/batch+1, (len(plain)+batch-1)/batch, time.Now().Format("15:04:05.000"))
 	}
 	// ---- injected cases, one at a time
 	for _, c := range injected {
-		if !run.Want(c.key()) {
+		if !run.Want(c.key()) || run.Saturated() {
 			continue
 		}
 		sigMu.Lock()
